@@ -66,7 +66,9 @@ TNext ==
   /\ LET e == Rec[l] IN
        CASE e.ev = "reset" ->
               \* a fresh calculator configured through the setters; the driver's day
-              /\ calc' = CalcOf(e.cfg) /\ sess' = <<>> /\ today' = e.today /\ run' = NoRun
+              /\ calc' = (IF "alias" \in DOMAIN e THEN [CalcOf(e.cfg) EXCEPT !.alias = e.alias, !.codes = {e.codes[i] : i \in DOMAIN e.codes}]
+                          ELSE CalcOf(e.cfg))
+              /\ sess' = <<>> /\ today' = e.today /\ run' = NoRun
               /\ last' = [call |-> "reset"] /\ bad' = bad
          [] e.ev = "execute" ->
               \* a behaviour of Execute: calc and sess unchanged; the slots are judged line by line
@@ -74,6 +76,9 @@ TNext ==
                  IN  /\ Judge(e.status = TRUE /\ r.ok, r.exp)
                      /\ last' = [call |-> "execute", status |-> e.status, slots |-> r.exp]
               /\ UNCHANGED <<calc, sess, run, today>>
+         [] e.ev = "update_currency" ->
+              /\ UpdateCurrency(e.cur, e.rate)
+              /\ Judge(e.ret = (Canon(calc, e.cur) # "none"), <<[k |-> "ret", v |-> Canon(calc, e.cur) # "none"]>>)
          [] e.ev = "session_new" -> NewSession(e.s) /\ bad' = bad
          [] e.ev = "set_language" -> SetLanguage(e.s, e.lang) /\ bad' = bad
          [] e.ev = "set_text" -> SetText(e.s, e.lines) /\ bad' = bad
